@@ -30,7 +30,7 @@ CLAIMS = {
     },
     "C18": {
         "text": "De-duplication decided from path conditions (task creation dominated by `source address not in seen set`, address added on "
-                "every creating path, one create_task site, gathered task set); per-host containment decided by the may-raise analysis "
+                "every creating path, one create_task site, the result built from one gather over every recorded task, nothing removes - or hands out a remover of - recorded tasks); per-host containment decided by the may-raise analysis "
                 "with the datagram as taint source (escape set of datagram_received and of the per-host coroutine is empty); no shared "
                 "per-host state (who-writes).",
         "note": TRUST + "library model; asyncio.gather re-raises the first task exception; interleavings need no exploration once hosts share no state",
@@ -68,7 +68,7 @@ CLAIMS = {
                 "residues of (len+2) mod 16; declared size = actual − 8; tag over header ‖ plaintext on both sides; decoder ranges, pad "
                 "nibble, counter width agree; the payload strip is decided for pad = 0 and pad > 0 (x[a:-0] is empty); every decoded "
                 "return is dominated by the full-width SHA-256 equality and rejections are ProtocolErrors; the unauthenticated type nibble "
-                "selects the handshake branch only while a handshake is pending (flag set before the write, reset on every exit).",
+                "selects the handshake branch only while a handshake is pending (flag set before the write, lowered by a finally / catch-all on every exit, named or not - also through extracted helpers).",
         "note": TRUST + "SHA-256 / AES-CBC implementations; Python slicing semantics",
         "technique": "byte-sequence layout + congruence + interval domains, path-condition dominance (static analysis)",
     },
@@ -112,7 +112,7 @@ CLAIMS = {
                 "sequence of read outcomes (ok / timeout / protocol error / cancellation): transmissions ∈ [1,R], no retransmission after "
                 "a response, R timeouts ⇒ TimeoutError after exactly R transmissions, every failure exit disconnects first and leaves as "
                 "timeout/protocol error; plus must-pass-through reconnect in send, _disconnect/_connect/_alive/alive/write facts from "
-                "value-flow terms and the may-raise analysis with environment raisers for connect failures and Device._send_command; the "
+                "value-flow terms (no self._protocol.<x> where the path condition, short-circuit operands or every caller's guard leave it possibly None) and the may-raise analysis with environment raisers for connect failures and Device._send_command; the "
                 "reassembly premises of C04 (every response that arrives is delivered) are re-run as premises.",
         "note": TRUST + "timing relative to the 2 s read timeout and success of the following exchange on a real socket are not decided",
         "technique": "conditional-constant exploration of retry-loop automata + must-pass-through + may-raise effects (static analysis)",
@@ -175,7 +175,7 @@ CLAIMS = {
         "text": "Decided compositionally: def-use chains setter → backing attribute → apply → SetStateCommand attribute for all 16 settable "
                 "states, then C10's abstract round trip to the vendor decode; C11's decode chain back to the getters; value-flow "
                 "connectivity of _send_command / LAN.send / _read / drains / V3 write+read; every response of an exchange reaches "
-                "_update_state, whose stores are overwrite-only; both data_received implementations satisfy the reassembly premises; the "
+                "_update_state (the valid list is returned as collected: no filtering, de-duplication or truncation), whose stores are overwrite-only; both data_received implementations satisfy the reassembly premises; the "
                 "transport obligations of C02/C04/C05/C12 are re-run, not assumed.",
         "note": TRUST + "AES/MD5/SHA behave as specified; byte equality through the ciphers and real TCP schedules are not explored (not needed: "
                 "receive callbacks are sequential)",
